@@ -28,6 +28,19 @@ TEXTS = {
                     'depth-first enumerated schedules of the controlled scheduler; the recorded commits are replayed on a real replica '
                     'through a real commit.Channel or commit.Log file and both projections are compared by the trace specification.',
             'note': _NOTE, 'technique': _T},
+    'C07': {'text': 'Snapshot (block images) and Restore (one committed transaction per block, then the recorded commits that pass the '
+                    'id filter) are actions of the specification; MC_Snap checks that the restored collection equals the primary block by '
+                    'block. Histories with up to 3 snapshot -> restore -> continue cycles over all kinds, indexes, sorted index, keys, '
+                    '0-3 blocks and all capacities are validated: every block-commit of the restoring collection (seen by its logger) '
+                    'must be the image the specification computed, the restored collection is dumped and the history continues on it.',
+            'note': _NOTE, 'technique': _T},
+    'C08': {'text': 'ConsistentCut (each restored block equals the primary block after a prefix of the commits applied to it, between '
+                    'those applied when the snapshot began and when it returned) is model-checked for 2 writers beside a snapshot at '
+                    'every interleaving of the commit and snapshot protocols (quick: 1 operation each, thorough: 2; 27.6 M states). '
+                    'Controlled schedules (random with long preemptions, and depth-first enumeration) park the real snapshot at '
+                    'snap.opened / snap.block / snap.closing / snap.copying beside 2-4 writers; the snapshot is restored and every '
+                    'block image and replayed commit is bound to the specification.',
+            'note': _NOTE, 'technique': _T},
     'C09': {'text': 'Merges are applied inside Apply (one action under the block latch); ReadBack against the per-row fold in apply '
                     'order is model-checked for 2 concurrent writers; controlled schedules of 2-4 writers merging (additive and '
                     'order-sensitive affine merge, string concat, all numeric types, records) into overlapping rows are validated: '
@@ -44,6 +57,19 @@ TEXTS = {
                     'keys with several key operations per transaction, rollbacks, re-keying; controlled schedules parked between lookup '
                     'and insert (key.checked); every dump probes every key of the alphabet with QueryKey.',
             'note': _NOTE, 'technique': _T},
+    'C13': {'text': 'Restore from a truncated file is the same action sequence that may stop early: RestoreEnd accepts success only if '
+                    'every block image has been applied and the replayed commits are a prefix of the recorded ones; what was applied is '
+                    'bound item by item (whole items only). Snapshots with 0-3 commits recorded beside them and commit log files of the '
+                    'primary are cut at every s2 frame boundary +-2 and a random sample (quick) / every byte (thorough); each prefix is '
+                    'restored / ranged over into a fresh collection under a watchdog; panics and hangs are events no action explains.',
+            'note': _NOTE + ' The exhaustive part covers the untruncated protocol (MC_Snap); truncation points are enumerated on the real bytes.',
+            'technique': _T + '; fault enumeration over byte offsets'},
+    'C14': {'text': 'SnapFail (from any point of the snapshot protocol) must leave the recorder detached (RecorderClean, model-checked with '
+                    'retries beside 2 writers) and the collection usable. On the real code the destination fails at every write-call '
+                    'index (fail-once and fail-forever) and at byte budgets (sample in quick, all in thorough); each failure must be '
+                    'reported, then a commit, a healthy snapshot and its restore are validated, descriptors (after forced GCs) and '
+                    'recorder temp files must be back at the baseline; two overlapping snapshots; hundreds of repeated failures.',
+            'note': _NOTE, 'technique': _T + '; fault enumeration over write calls and byte budgets'},
     'C15': {'text': 'StreamIds (distinct, non-zero, increasing per block in emission order) is model-checked under all interleavings '
                     'of 2 writers; in validated executions every in-latch logger event is bound to exactly one Apply action of a dirty '
                     'block of a committing transaction (rolled-back / empty transactions have no Apply), the id must exceed the '
